@@ -1032,8 +1032,8 @@ fn main() {
     let old_on = only.as_deref().map_or(true, |v| v == "old");
     let rec_on = only.as_deref().map_or(true, |v| v == "rec");
     let cli_on = only.as_deref().map_or(true, |v| v == "cli");
-    let cli_params = cli::CParams { n_queries: if thorough { 9 } else { 6 }, cap_single: if thorough { 60 } else { 16 }, n_hist: if thorough { 6 } else { 4 } };
-    let rec_params = rec::RParams { n_queries: if thorough { 9 } else { 6 }, cap_single: if thorough { 80 } else { 24 }, n_hist: if thorough { 9 } else { 6 } };
+    let cli_params = cli::CParams { n_queries: if thorough { 12 } else { 8 }, cap_single: if thorough { 60 } else { 24 }, n_hist: if thorough { 6 } else { 4 } };
+    let rec_params = rec::RParams { n_queries: if thorough { 12 } else { 8 }, cap_single: if thorough { 80 } else { 32 }, n_hist: if thorough { 9 } else { 6 } };
 
     for hi in 0..n_hier {
         let global_idx = ctx.shard + ctx.nshards * hi;
